@@ -1,7 +1,7 @@
 (** Property C01 — theorems only.  [run] is the reference semantics (Core.Sem); the extracted [run] is
     the oracle of the failing-input search in harness/props/C01.py. *)
 From Coq Require Import ZArith List Bool.
-From Core Require Import Syntax Sem Equiv PartialEval PartialEvalSound Subst RewriteAt ShiftLoop DivideLoop.
+From Core Require Import Syntax Sem Equiv PartialEval PartialEvalSound Subst RewriteAt ShiftLoop DivideLoop FissionFuse.
 Import ListNotations.
 Local Open Scope Z_scope.
 
@@ -201,3 +201,20 @@ Theorem C01_divide_perfect_proc : forall i io ii q p,
   DivideLoop.divide_perfect_ok_proc i io ii q p = true -> preserves p (DivideLoop.divide_perfect_proc i io ii q p).
 Proof. intros i io ii q p H inp bufs cfg. apply DivideLoop.divide_perfect_proc_preserves, H. Qed.
 Print Assumptions C01_divide_perfect_proc.
+
+(** fission / fuse: under the contract that the implementation's effect check (Check_FissionLoop, the fuse
+    check) establishes -- an instance of B at iteration k commutes with an instance of A at every later
+    iteration -- a loop over A;B and the two loops over A and over B are the same state transformer *)
+Theorem C01_fission : forall i lo hi A B par par1 par2,
+  forallb Rules.nodecl A = true -> env_only lo = true -> env_only hi = true ->
+  (forall st l h, eval st lo = Ok (VInt l) -> eval st hi = Ok (VInt h) -> FissionFuse.commute_contract i A B l h) ->
+  refines [For i lo hi (A ++ B) par] [For i lo hi A par1; For i lo hi B par2].
+Proof. exact FissionFuse.rule_fission. Qed.
+Print Assumptions C01_fission.
+
+Theorem C01_fuse : forall i lo hi A B par par1 par2,
+  forallb Rules.nodecl A = true -> env_only lo = true -> env_only hi = true ->
+  (forall st l h, eval st lo = Ok (VInt l) -> eval st hi = Ok (VInt h) -> FissionFuse.commute_contract i A B l h) ->
+  refines [For i lo hi A par1; For i lo hi B par2] [For i lo hi (A ++ B) par].
+Proof. exact FissionFuse.rule_fuse. Qed.
+Print Assumptions C01_fuse.
